@@ -68,10 +68,59 @@ def run(ctx):
         res.samples.append({"in": lines[0][:300], "impl": impl[0][:200], "model": "(no model at this level)"})
     finally:
         shutil.rmtree(tmp, ignore_errors=True)
+    glyph_boxes(ctx, res, q)
     return res.as_dict()
 
 
+def glyph_boxes(ctx, res, q):
+    """gr_face_preloadGlyphs at the level of GlyphCache: generated well-formed Gloc/Glat tables (versions 1-3; version 3 with bounding
+    octaboxes whose glyphs have no, some or many sub-boxes) given to GlyphCache with and without the option; every glyph, its attributes
+    and its box must come out the same (glyphCache_preload_eq_lazy), and both must be the model's"""
+    import struct
+    import pathlib
+    import passgen
+    import sfnt
+    r = lib.rng("c10boxes")
+    for bf in ("small.ttf", "grtest1gr.ttf"):
+        bfp = str(lib.REPO / "tests" / "fonts" / bf)
+        if not pathlib.Path(bfp).exists():
+            continue
+        ngg = struct.unpack(">H", sfnt.read_tables(pathlib.Path(bfp))["maxp"][4:6])[0]
+        tails = []
+        for k in range(60 if q else 1500):
+            ver = r.choice([0x00010000, 0x00020000, 0x00030000, 0x00030000, 0x00030000])
+            gloc, glat = passgen.build_glyph_tables(r, ngg, ver, r.random() < 0.4, False, hostile=0.0)
+            if ver == 0x00030000 and k % 3 == 0:
+                # bounding octaboxes but not a single sub-box in the font: every bitmap 0 (and its sub-box bytes gone)
+                gloc, glat = passgen.build_glyph_tables(r, ngg, ver, False, False, hostile=0.0, no_subboxes=True)
+            gids = ",".join(map(str, range(ngg)))
+            keys = ",".join(map(str, [0, 1, 2, 3, 47, 48, 49] + [r.randrange(0, 200) for _ in range(4)]))
+            tails.append("48 %d %s %s %s %s" % (ngg, gloc.hex(), glat.hex(), gids, keys))
+        lines = ["glyphs 0 " + t for t in tails] + ["glyphs 2 " + t for t in tails]
+        impl, model = lib.correspond(ctx, res, "h_pass", "loader", lines, lambda l, i: ((False, "crash / out-of-bounds access in GlyphCache") if i.startswith(("CRASH", "fault")) else (True, "")),
+                                     exe_args=[bfp], per_chunk=40, line_timeout=120,
+                                     classify=lambda l, i: "boxes:%s:%s" % ("preload" if l.split()[1] == "2" else "lazy", i.split()[0] if i else "empty"),
+                                     rule="GlyphCache with and without gr_face_preloadGlyphs on generated well-formed Gloc/Glat of %s (versions 1-3, octaboxes with 0..16 sub-boxes per glyph, fonts without any sub-box): every glyph's attributes and box identical, and both the model's" % bf)
+        n = len(tails)
+        for k in range(n):
+            a, b = impl[k], impl[k + n]
+            res.evaluations += 1
+            if not (a.startswith("ok") and b.startswith("ok")):
+                res.count("boxes:pair:" + ("not-loaded" if not a.startswith(("CRASH", "fault")) and not b.startswith(("CRASH", "fault")) else "fault"))
+                continue
+            res.count("boxes:pair:" + ("same" if a == b else "DIFFERENT"))
+            if a != b:
+                j = next((i for i in range(min(len(a), len(b))) if a[i] != b[i]), 0)
+                res.failures.append({"harness": "h_pass", "mode": "loader", "line": lines[k + n], "ref_line": lines[k], "impl": b[max(0, j - 60):j + 100], "model": a[max(0, j - 60):j + 100], "exe_args": [bfp], "tag": "boxes",
+                                     "why": "a glyph cache made with gr_face_preloadGlyphs hands out a different glyph or box than one that loads on demand (first difference at column %d): the option changes a result" % j})
+
+
 def replay(ctx, obj):
+    if obj.get("tag") == "boxes":
+        hp = lib.build_harness("h_pass")
+        a, b = lib.run_lines([hp] + obj.get("exe_args", []), [obj["ref_line"], obj["line"]])
+        print("on demand: %s\npreloaded: %s\nsame: %s" % (a[:300], b[:300], a == b))
+        return a != b
     exe = lib.build_harness("h_seg")
     tmp = lib.CACHE / ("replay-%d" % os.getpid())
     tmp.mkdir(parents=True, exist_ok=True)
